@@ -2,7 +2,10 @@ module symgo
 
 go 1.26.8
 
-require golang.org/x/tools v0.50.0
+require (
+	go.yaml.in/yaml/v3 v3.0.4
+	golang.org/x/tools v0.50.0
+)
 
 require (
 	golang.org/x/mod v0.41.0 // indirect
